@@ -47,14 +47,33 @@ SI_ANGLE = {  # factor to radian as (q, power of π)
 
 
 def V(ctx: Ctx, key: str, what: str, replay):
-    """ctx.violate once per stable key (repeats are only counted, so that the cap keeps other keys)"""
-    seen = ctx.__dict__.setdefault("_c20_keys", set())
-    if key in seen:
-        ctx.count("oracle_failures")
-        ctx.count("repeat:" + key)
-        return
-    seen.add(key)
     ctx.violate(key, what, replay)
+
+
+class guard:
+    """`with guard(ctx, part):` around the work on one case.  Whatever the real code does there that the
+    harness cannot interpret - an exception, a None / NaN / wrong-length result that makes a comparison
+    raise - becomes an oracle failure with the case as replay; it never ends the run (tool failures of
+    the Lean side still propagate)."""
+
+    def __init__(self, ctx: Ctx, part: str):
+        self.ctx, self.part = ctx, part
+
+    def __enter__(self):
+        return self
+
+    def __exit__(self, et, ev, tb):
+        if et is None or not issubclass(et, Exception) or issubclass(et, common.ToolFailure):
+            return False
+        import traceback
+
+        case = tb.tb_frame.f_locals.get("case") if tb is not None else None
+        where = traceback.extract_tb(tb)[-1]
+        V(self.ctx, f"{self.part}:uninterpretable:{et.__name__}",
+          f"{self.part}: the real code raised, or returned a value that is not a valid result "
+          f"({et.__name__}: {str(ev)[:160]}; at {where.name}:{where.lineno})",
+          case if case is not None else {"part": self.part})
+        return True
 
 
 def rl(vals) -> str:
@@ -120,70 +139,76 @@ def units_part(ctx: Ctx, drv, info):
             keys.append((a, b, via))
     ans = drv.ask(lines)
     for (a, b, via), m in zip(keys, ans):
-        case = {"part": "unit", "a": a, "b": b, "via": via}
-        ctx.case(case, nontrivial=(a != b and dims[a] == dims[b]))
-        ctx.count("unit-pair-same-dim" if dims[a] == dims[b] else "unit-pair-cross-dim")
-        kind, val = f[(a, b)]
-        if m.startswith("ok "):
-            mv = Fraction(m[3:])
-            if kind != "ok" or abs(frac(val) - mv) > Fraction(1, 10**14) * abs(mv):
-                ctx.disagree("Unit.<a>2<b> vs factor table", case, m, [kind, val])
-        elif m != kind:
-            ctx.disagree("Unit.<a>2<b> dimension guard", case, m, [kind, val])
+        with guard(ctx, "unit"):
+            case = {"part": "unit", "a": a, "b": b, "via": via}
+            ctx.case(case, nontrivial=(a != b and dims[a] == dims[b]))
+            ctx.count("unit-pair-same-dim" if dims[a] == dims[b] else "unit-pair-cross-dim")
+            kind, val = f[(a, b)]
+            if m.startswith("ok "):
+                mv = Fraction(m[3:])
+                if kind != "ok" or abs(frac(val) - mv) > Fraction(1, 10**14) * abs(mv):
+                    ctx.disagree("Unit.<a>2<b> vs factor table", case, m, [kind, val])
+            elif m != kind:
+                ctx.disagree("Unit.<a>2<b> dimension guard", case, m, [kind, val])
 
     # both spellings give the same number (sampled)
     for _ in range(60):
-        a, b = ctx.rng.choice(names), ctx.rng.choice(names)
-        if impl_pair(a, b, "attr") != impl_pair(a, b, "call"):
-            V(ctx, "unit:attr-vs-call", f"Unit.{a}2{b} differs from Unit({a!r}, {b!r})", {"a": a, "b": b})
+        with guard(ctx, "unit"):
+            a, b = ctx.rng.choice(names), ctx.rng.choice(names)
+            if impl_pair(a, b, "attr") != impl_pair(a, b, "call"):
+                V(ctx, "unit:attr-vs-call", f"Unit.{a}2{b} differs from Unit({a!r}, {b!r})", {"a": a, "b": b})
 
     # ---- oracle: reciprocity, transitivity, anchoring to base units, SI definitions
     TOL = 1e-13
     base = {}
     for a in names:
-        try:
-            base[a] = float((1 * Unit(a)).to_base_units().magnitude)
-        except Exception as e:  # noqa
-            V(ctx, f"unit:base:{a}", f"Unit({a!r}) has no base-unit form: {e}", {"a": a})
+        with guard(ctx, "unit"):
+            try:
+                base[a] = float((1 * Unit(a)).to_base_units().magnitude)
+            except Exception as e:  # noqa
+                V(ctx, f"unit:base:{a}", f"Unit({a!r}) has no base-unit form: {e}", {"a": a})
     for a in names:
-        for b in names:
-            kind, v = f[(a, b)]
-            same = dims[a] == dims[b]
-            if same and kind != "ok":
-                V(ctx, f"unit:refused:{a}2{b}", f"Unit.{a}2{b} raised {kind} for units of one dimension", {"a": a, "b": b})
-                continue
-            if not same:
-                if kind == "ok":
-                    V(ctx, f"unit:crossdim:{a}2{b}", f"Unit.{a}2{b} = {v} across dimensions", {"a": a, "b": b})
-                continue
-            kind2, w = f[(b, a)]
-            if kind2 == "ok" and abs(v * w - 1) > TOL:
-                V(ctx, f"unit:recip:{a}/{b}", f"{a}2{b} x {b}2{a} = {v * w!r} != 1", {"a": a, "b": b, "a2b": v, "b2a": w})
-            if a in base and b in base and abs(v - base[a] / base[b]) > TOL * abs(v):
-                V(ctx, f"unit:anchor:{a}2{b}", f"{a}2{b} = {v!r} but one {a} is {base[a]!r} and one {b} is {base[b]!r} base units",
-                            {"a": a, "b": b, "a2b": v})
+        with guard(ctx, "unit"):
+            for b in names:
+                kind, v = f[(a, b)]
+                same = dims[a] == dims[b]
+                if same and kind != "ok":
+                    V(ctx, f"unit:refused:{a}2{b}", f"Unit.{a}2{b} raised {kind} for units of one dimension", {"a": a, "b": b})
+                    continue
+                if not same:
+                    if kind == "ok":
+                        V(ctx, f"unit:crossdim:{a}2{b}", f"Unit.{a}2{b} = {v} across dimensions", {"a": a, "b": b})
+                    continue
+                kind2, w = f[(b, a)]
+                if kind2 == "ok" and abs(v * w - 1) > TOL:
+                    V(ctx, f"unit:recip:{a}/{b}", f"{a}2{b} x {b}2{a} = {v * w!r} != 1", {"a": a, "b": b, "a2b": v, "b2a": w})
+                if a in base and b in base and abs(v - base[a] / base[b]) > TOL * abs(v):
+                    V(ctx, f"unit:anchor:{a}2{b}", f"{a}2{b} = {v!r} but one {a} is {base[a]!r} and one {b} is {base[b]!r} base units",
+                                {"a": a, "b": b, "a2b": v})
     ntr = 0
     for a in names:
-        for b in names:
-            if dims[a] != dims[b] or f[(a, b)][0] != "ok":
-                continue
-            for c in names:
-                if dims[c] != dims[a] or f[(b, c)][0] != "ok" or f[(a, c)][0] != "ok":
+        with guard(ctx, "unit"):
+            for b in names:
+                if dims[a] != dims[b] or f[(a, b)][0] != "ok":
                     continue
-                ntr += 1
-                lhs = f[(a, b)][1] * f[(b, c)][1]
-                if abs(lhs - f[(a, c)][1]) > TOL * abs(f[(a, c)][1]):
-                    V(ctx, f"unit:trans:{a}/{b}/{c}", f"{a}2{b} x {b}2{c} = {lhs!r} != {a}2{c} = {f[(a, c)][1]!r}",
-                                {"a": a, "b": b, "c": c})
+                for c in names:
+                    if dims[c] != dims[a] or f[(b, c)][0] != "ok" or f[(a, c)][0] != "ok":
+                        continue
+                    ntr += 1
+                    lhs = f[(a, b)][1] * f[(b, c)][1]
+                    if abs(lhs - f[(a, c)][1]) > TOL * abs(f[(a, c)][1]):
+                        V(ctx, f"unit:trans:{a}/{b}/{c}", f"{a}2{b} x {b}2{c} = {lhs!r} != {a}2{c} = {f[(a, c)][1]!r}",
+                                    {"a": a, "b": b, "c": c})
     ctx.count("unit-triples", ntr)
     ctx.evaluations += ntr
     for a in names:
-        if a in SI and a in base and abs(base[a] - float(SI[a])) > TOL * float(SI[a]):
-            V(ctx, f"unit-si:{a}", f"one {a} is {base[a]!r} base units, SI says {SI[a]}", {"a": a})
-        if a in SI_ANGLE and a in base:
-            q, k = SI_ANGLE[a]
-            if abs(base[a] - float(q) * math.pi ** k) > TOL * base[a]:
-                V(ctx, f"unit-si:{a}", f"one {a} is {base[a]!r} rad, definition says {q}*pi^{k}", {"a": a})
+        with guard(ctx, "unit"):
+            if a in SI and a in base and abs(base[a] - float(SI[a])) > TOL * float(SI[a]):
+                V(ctx, f"unit-si:{a}", f"one {a} is {base[a]!r} base units, SI says {SI[a]}", {"a": a})
+            if a in SI_ANGLE and a in base:
+                q, k = SI_ANGLE[a]
+                if abs(base[a] - float(q) * math.pi ** k) > TOL * base[a]:
+                    V(ctx, f"unit-si:{a}", f"one {a} is {base[a]!r} rad, definition says {q}*pi^{k}", {"a": a})
 
 
 # =============================================================================================
@@ -227,60 +252,66 @@ def dms_part(ctx: Ctx, drv):
     lines = [f"c20 deg2dms {rs(PI)} {sf(x)}" for x in angles]
     ans = drv.ask(lines)
     for x, a in zip(angles, ans):
-        case = {"part": "dms", "deg": fl(x)}
-        ctx.case(case, nontrivial=(x != 0))
-        ctx.count("dms:neg<1deg" if -1 < x < 0 else "dms:zero" if x == 0 else "dms:neg" if x < 0 else "dms:pos")
-        try:
-            d, m, s = Unit.deg_to_dms(x)
-            d, m, s = float(d), float(m), float(s)
-        except Exception as e:  # noqa
-            V(ctx, f"dms:raises:{type(e).__name__}", f"deg_to_dms({x!r}) raised {e}", case)
-            continue
-        t = a.split()
-        mneg, md, mm, ms = t[0] == "1", Fraction(t[1]), Fraction(t[2]), Fraction(t[3])
-        ineg = math.copysign(1.0, d) < 0
-        tot_i = abs(frac(d)) + frac(m) / 60 + frac(s) / 3600
-        tot_m = md + mm / 60 + ms / 3600
-        if abs(x) < 1e-290 and abs(tot_i - tot_m) <= TOL_C:
-            ctx.count("dms:underflow")       # x * degrees2radians underflows to (signed) zero: sign of 0 not compared
-        elif ineg != mneg or abs(tot_i - tot_m) > TOL_C:
-            ctx.disagree("deg_to_dms", case, a, [d, m, s])
-        elif (abs(frac(d)), frac(m)) != (md, mm):
-            ctx.count("dms:floor-edge")   # float product landed on the other side of an integer
-        elif abs(frac(s) - ms) > TOL_C * 3600:
-            ctx.disagree("deg_to_dms seconds", case, a, [d, m, s])
-        # ---- oracle: round trip and field ranges, on the real code only
-        if not (d == math.floor(d) and m == math.floor(m) and 0 <= m < 60 and 0 <= s <= 60):
-            V(ctx, "dms:fields", f"deg_to_dms({x!r}) = {(d, m, s)} has a field out of range", case)
-        try:
-            back = float(Unit.dms_to_deg(d, m, s))
-        except Exception as e:  # noqa
-            V(ctx, f"dms:raises:{type(e).__name__}", f"dms_to_deg{(d, m, s)} raised {e}", case)
-            continue
-        if abs(frac(back) - frac(x)) > TOL_O or math.isnan(back):
-            key = "dms:roundtrip:neg<1deg" if -1 < x < 0 else "dms:roundtrip:zero" if x == 0 else "dms:roundtrip"
-            V(ctx, key, f"dms_to_deg(*deg_to_dms({x!r})) = {back!r}", {**case, "dms": [d, m, s]})
+        with guard(ctx, "dms"):
+            case = {"part": "dms", "deg": fl(x)}
+            ctx.case(case, nontrivial=(x != 0))
+            ctx.count("dms:neg<1deg" if -1 < x < 0 else "dms:zero" if x == 0 else "dms:neg" if x < 0 else "dms:pos")
+            try:
+                d, m, s = Unit.deg_to_dms(x)
+                d, m, s = float(d), float(m), float(s)
+            except Exception as e:  # noqa
+                V(ctx, f"dms:raises:{type(e).__name__}", f"deg_to_dms({x!r}) raised {e}", case)
+                continue
+            t = a.split()
+            mneg, md, mm, ms = t[0] == "1", Fraction(t[1]), Fraction(t[2]), Fraction(t[3])
+            ineg = math.copysign(1.0, d) < 0
+            tot_i = abs(frac(d)) + frac(m) / 60 + frac(s) / 3600
+            tot_m = md + mm / 60 + ms / 3600
+            if abs(x) < 1e-290 and abs(tot_i - tot_m) <= TOL_C:
+                ctx.count("dms:underflow")       # x * degrees2radians underflows to (signed) zero: sign of 0 not compared
+            elif ineg != mneg or abs(tot_i - tot_m) > TOL_C:
+                ctx.disagree("deg_to_dms", case, a, [d, m, s])
+            elif (abs(frac(d)), frac(m)) != (md, mm):
+                ctx.count("dms:floor-edge")   # float product landed on the other side of an integer
+            elif abs(frac(s) - ms) > TOL_C * 3600:
+                ctx.disagree("deg_to_dms seconds", case, a, [d, m, s])
+            # ---- oracle: round trip and field ranges, on the real code only
+            if not (d == math.floor(d) and m == math.floor(m) and 0 <= m < 60 and 0 <= s <= 60):
+                V(ctx, "dms:fields", f"deg_to_dms({x!r}) = {(d, m, s)} has a field out of range", case)
+            try:
+                back = float(Unit.dms_to_deg(d, m, s))
+            except Exception as e:  # noqa
+                V(ctx, f"dms:raises:{type(e).__name__}", f"dms_to_deg{(d, m, s)} raised {e}", case)
+                continue
+            if abs(frac(back) - frac(x)) > TOL_O or math.isnan(back):
+                key = "dms:roundtrip:neg<1deg" if -1 < x < 0 else "dms:roundtrip:zero" if x == 0 else "dms:roundtrip"
+                V(ctx, key, f"dms_to_deg(*deg_to_dms({x!r})) = {back!r}", {**case, "dms": [d, m, s]})
     # rad_to_dms round trip through dms_to_rad + vectorised call equals scalar calls
     sub = angles[: max(50, n // 10)]
     rads = [x * math.pi / 180 for x in sub]
     lines = [f"c20 rad2dms {rs(PI)} {sf(r)}" for r in rads]
     ans = drv.ask(lines)
-    vec = Unit.rad_to_dms(np.array(rads))
+    try:
+        vec = Unit.rad_to_dms(np.array(rads))
+    except Exception as e:  # noqa
+        V(ctx, f"dms:array:raises:{type(e).__name__}", f"rad_to_dms on an array raised {e}", {"part": "rad_dms", "rads": [fl(r) for r in rads[:20]]})
+        vec = None
     for i, (r, a) in enumerate(zip(rads, ans)):
-        case = {"part": "rad_dms", "rad": fl(r)}
-        ctx.case(case, nontrivial=(r != 0))
-        d, m, s = (float(v) for v in Unit.rad_to_dms(r))
-        t = a.split()
-        tot_i = abs(frac(d)) + frac(m) / 60 + frac(s) / 3600
-        tot_m = Fraction(t[1]) + Fraction(t[2]) / 60 + Fraction(t[3]) / 3600
-        if (math.copysign(1.0, d) < 0) != (t[0] == "1") or abs(tot_i - tot_m) > TOL_C:
-            ctx.disagree("rad_to_dms", case, a, [d, m, s])
-        if (float(vec[0][i]), float(vec[1][i]), float(vec[2][i])) != (d, m, s) or \
-                math.copysign(1, float(vec[0][i])) != math.copysign(1, d):
-            V(ctx, "dms:array-vs-scalar", f"rad_to_dms on an array differs from the scalar call at {r!r}", case)
-        back = float(Unit.dms_to_rad(d, m, s))
-        if abs(frac(back) - frac(r)) > TOL_O / 50:
-            V(ctx, "dms:roundtrip:rad", f"dms_to_rad(*rad_to_dms({r!r})) = {back!r}", case)
+        with guard(ctx, "dms"):
+            case = {"part": "rad_dms", "rad": fl(r)}
+            ctx.case(case, nontrivial=(r != 0))
+            d, m, s = (float(v) for v in Unit.rad_to_dms(r))
+            t = a.split()
+            tot_i = abs(frac(d)) + frac(m) / 60 + frac(s) / 3600
+            tot_m = Fraction(t[1]) + Fraction(t[2]) / 60 + Fraction(t[3]) / 3600
+            if (math.copysign(1.0, d) < 0) != (t[0] == "1") or abs(tot_i - tot_m) > TOL_C:
+                ctx.disagree("rad_to_dms", case, a, [d, m, s])
+            if vec is not None and ((float(vec[0][i]), float(vec[1][i]), float(vec[2][i])) != (d, m, s) or \
+                    math.copysign(1, float(vec[0][i])) != math.copysign(1, d)):
+                V(ctx, "dms:array-vs-scalar", f"rad_to_dms on an array differs from the scalar call at {r!r}", case)
+            back = float(Unit.dms_to_rad(d, m, s))
+            if abs(frac(back) - frac(r)) > TOL_O / 50:
+                V(ctx, "dms:roundtrip:rad", f"dms_to_rad(*rad_to_dms({r!r})) = {back!r}", case)
     # dms_to_deg / dms_to_rad / hms_to_rad on constructed fields (incl. -0.0 degrees)
     m_cases = []
     for _ in range(max(100, n // 5)):
@@ -296,29 +327,30 @@ def dms_part(ctx: Ctx, drv):
         lines.append(f"c20 hms2rad {rs(PI)} {sf(d)} {rs(frac(mi))} {rs(frac(s))}")
     ans = drv.ask(lines)
     for i, (d, mi, s) in enumerate(m_cases):
-        case = {"part": "dms_to", "d": fl(d), "m": mi, "s": fl(s)}
-        ctx.case(case)
-        ctx.count("dms_to:-0.0" if (d == 0 and math.copysign(1, d) < 0) else "dms_to")
-        for j, (name, fn) in enumerate([("dms_to_deg", Unit.dms_to_deg), ("dms_to_rad", Unit.dms_to_rad), ("hms_to_rad", Unit.hms_to_rad)]):
-            a = ans[3 * i + j]
-            try:
-                v = float(fn(d, mi, s))
-                impl = ("ok", v)
-            except ValueError:
-                impl = ("neg-hours", None)
-            if a == "neg-hours" or impl[0] != "ok":
-                if a != impl[0]:
-                    ctx.disagree(name + " guard", case, a, impl)
-                continue
-            t = a.split()
-            mv = Fraction(t[1]) * (-1 if t[0] == "1" else 1)
-            if abs(frac(v) - mv) > TOL_C * 15 or ((math.copysign(1, v) < 0) != (t[0] == "1")):
-                ctx.disagree(name, case, a, impl)
-        # oracle: the sign of the degree field alone decides the sign of the angle
-        v = float(Unit.dms_to_deg(d, mi, s))
-        want = (abs(frac(d)) + frac(mi) / 60 + frac(s) / 3600) * (-1 if math.copysign(1, d) < 0 else 1)
-        if abs(frac(v) - want) > TOL_O:
-            V(ctx, "dms:sign-of-degree-field", f"dms_to_deg({d!r}, {mi}, {s!r}) = {v!r}, expected {float(want)!r}", case)
+        with guard(ctx, "dms"):
+            case = {"part": "dms_to", "d": fl(d), "m": mi, "s": fl(s)}
+            ctx.case(case)
+            ctx.count("dms_to:-0.0" if (d == 0 and math.copysign(1, d) < 0) else "dms_to")
+            for j, (name, fn) in enumerate([("dms_to_deg", Unit.dms_to_deg), ("dms_to_rad", Unit.dms_to_rad), ("hms_to_rad", Unit.hms_to_rad)]):
+                a = ans[3 * i + j]
+                try:
+                    v = float(fn(d, mi, s))
+                    impl = ("ok", v)
+                except ValueError:
+                    impl = ("neg-hours", None)
+                if a == "neg-hours" or impl[0] != "ok":
+                    if a != impl[0]:
+                        ctx.disagree(name + " guard", case, a, impl)
+                    continue
+                t = a.split()
+                mv = Fraction(t[1]) * (-1 if t[0] == "1" else 1)
+                if abs(frac(v) - mv) > TOL_C * 15 or ((math.copysign(1, v) < 0) != (t[0] == "1")):
+                    ctx.disagree(name, case, a, impl)
+            # oracle: the sign of the degree field alone decides the sign of the angle
+            v = float(Unit.dms_to_deg(d, mi, s))
+            want = (abs(frac(d)) + frac(mi) / 60 + frac(s) / 3600) * (-1 if math.copysign(1, d) < 0 else 1)
+            if abs(frac(v) - want) > TOL_O:
+                V(ctx, "dms:sign-of-degree-field", f"dms_to_deg({d!r}, {mi}, {s!r}) = {v!r}, expected {float(want)!r}", case)
 
 
 # =============================================================================================
@@ -418,98 +450,99 @@ def lagrange_part(ctx: Ctx, drv):
     rng = ctx.rng
     ncases = ctx.budget(160, 3500)
     for ci in range(ncases):
-        n = rng.choice([3, 4, 5, 8, 12, 13]) if rng.random() < 0.3 else rng.randint(3, 60)
-        w = rng.randint(3, min(12, n))
-        x, flavour = gen_abscissae(rng, n)
-        tail = rng.choice([(), (), (1,), (2,), (3,), (2, 2), (3, 2), (2, 1, 2)])
-        y, polys = gen_y(rng, x, tail, w)
-        k = rng.randint(1, 8)
-        xn = gen_xnew(rng, x, flavour, k)
-        be, srt = True, rng.random() < 0.3
-        mode = "ok"
-        c = rng.random()
-        perm = np.arange(n)
-        if not srt and rng.random() < 0.7:
-            perm = np.array(rng.sample(range(n), n))
-        xi, yi = x[perm], y[perm]
-        if c < 0.04:
-            w, mode = rng.choice([0, 1, 2]), "window"
-        elif c < 0.08:
-            w, mode = n + rng.randint(1, 3), "short"
-        elif c < 0.12:
-            xi = xi.copy(); xi[rng.randrange(n)] = xi[rng.randrange(n)]; mode = "dup?"
-        elif c < 0.16 and n > 3:
-            srt = True; xi = xi.copy(); i = rng.randrange(n - 1); xi[i], xi[i + 1] = xi[i + 1], xi[i]; mode = "unsorted"
-        elif c < 0.24:
-            be = rng.random() < 0.6
-            span = float(x[-1] - x[0])
-            xn = xn.copy(); xn[rng.randrange(k)] = rng.choice([x[0] - span * rng.uniform(1e-9, 0.3), x[-1] + span * rng.uniform(1e-9, 0.3)])
-            mode = "outside" if be else "extrapolate"
-        elif c < 0.27:
-            yi = yi[:-1]; mode = "shape"
-        case = {"part": "lagrange", "n": n, "w": w, "tail": list(tail), "k": k, "flavour": flavour, "sorted_flag": srt,
-                "bounds_error": be, "mode": mode, "x": [fl(v) for v in xi], "xn": [fl(v) for v in xn],
-                "y": [fl(v) for v in np.asarray(yi).ravel()]}
-        ctx.case(case, nontrivial=(mode in ("ok", "extrapolate")))
-        ctx.count(f"lagrange:{mode}")
-        ctx.count(f"lagrange:ydim={1 + len(tail)}")
-        ctx.count(f"lagrange:x={flavour}")
-        for v in xn:   # exact ties between the two nearest samples exercise the first-minimum rule of argmin
-            dd = np.sort(np.abs(x - v))
-            if len(dd) > 1 and dd[0] == dd[1]:
-                ctx.count("lagrange:xnew-equidistant-from-two-samples")
-            elif dd[0] == 0:
-                ctx.count("lagrange:xnew-is-a-sample")
-        # ---- implementation
-        try:
-            r = call_interp("lagrange", xi, yi, xn, window=w, bounds_error=be, assume_sorted=srt)
-            impl = ("ok", np.asarray(r, dtype=float))
-        except ValueError as e:
-            impl = ("err", classify_error(e))
-        except Exception as e:  # noqa
-            impl = ("err", f"ERR:{type(e).__name__}:{str(e)[:80]}")
-        # ---- model
-        dim = int(np.prod(tail)) if tail else 1
-        rows = np.asarray(yi, dtype=float).reshape(len(yi), dim)
-        s = float(np.std(xi)) if len(xi) else 1.0
-        line = (f"c20 lagrange {w} {int(be)} {int(srt)} {rs(frac(s))} {dim} {rl(frac(v) for v in xi)} "
-                f"{rrows([frac(v) for v in row] for row in rows)} {rl(frac(v) for v in xn)}")
-        m = drv.ask1(line)
-        if m.startswith("err "):
-            if impl != ("err", m[4:]):
-                if impl[0] == "err" and impl[1].startswith("ERR:"):
-                    V(ctx, f"lagrange:raises:{impl[1].split(':')[1]}", f"lagrange raised {impl[1]} (model: {m})", case)
-                ctx.disagree("lagrange error branch", case, m, list(map(str, impl)))
-            continue
-        if impl[0] != "ok":
-            if impl[1].startswith("ERR:") or len(tail) >= 2:
-                V(ctx, "lagrange:ndim>=3-raises" if len(tail) >= 2 else f"lagrange:raises:{impl[1][:40]}",
-                            f"lagrange on y of shape {np.asarray(yi).shape} raised: {impl[1]}", case)
-            else:
-                ctx.disagree("lagrange error branch", case, m[:80], list(impl))
-            continue
-        mv = prows(m[3:])
-        r = impl[1]
-        if r.shape != (len(xn),) + tuple(tail):
-            V(ctx, "lagrange:shape", f"result shape {r.shape} for y tail {tail} and {len(xn)} abscissae", case)
-            continue
-        r2 = r.reshape(len(xn), dim)
-        # condition-scaled float bound: the weights come from the code itself (y = identity)
-        order = np.argsort(xi) if not srt else np.arange(len(xi))
-        W = call_interp("lagrange", xi, np.eye(len(xi)), xn, window=w, bounds_error=be, assume_sorted=srt)
-        cond = np.abs(W) @ np.abs(rows)          # (k, dim)
-        xs_sorted = np.asarray(xi)[order]
-        amp = 1.0 + float(np.max(np.abs(xs_sorted - xs_sorted.mean())) / np.min(np.diff(xs_sorted)))
-        bad = None
-        for a in range(len(xn)):
-            for cdx in range(dim):
-                tol = 1e-14 * w * amp * float(cond[a, cdx]) + 1e-300
-                if abs(frac(r2[a, cdx]) - mv[a][cdx]) > frac(tol):
-                    bad = (a, cdx, float(r2[a, cdx]), float(mv[a][cdx]), tol)
-        if bad:
-            ctx.disagree("lagrange value", {**case, "at": bad[:2]}, bad[3], bad[2])
-        if mode in ("ok", "extrapolate"):
-            interp_oracle(ctx, "lagrange", case, x, y, xn, polys, tail, w, {"window": w, "bounds_error": be})
+        with guard(ctx, "lagrange"):
+            n = rng.choice([3, 4, 5, 8, 12, 13]) if rng.random() < 0.3 else rng.randint(3, 60)
+            w = rng.randint(3, min(12, n))
+            x, flavour = gen_abscissae(rng, n)
+            tail = rng.choice([(), (), (1,), (2,), (3,), (2, 2), (3, 2), (2, 1, 2)])
+            y, polys = gen_y(rng, x, tail, w)
+            k = rng.randint(1, 8)
+            xn = gen_xnew(rng, x, flavour, k)
+            be, srt = True, rng.random() < 0.3
+            mode = "ok"
+            c = rng.random()
+            perm = np.arange(n)
+            if not srt and rng.random() < 0.7:
+                perm = np.array(rng.sample(range(n), n))
+            xi, yi = x[perm], y[perm]
+            if c < 0.04:
+                w, mode = rng.choice([0, 1, 2]), "window"
+            elif c < 0.08:
+                w, mode = n + rng.randint(1, 3), "short"
+            elif c < 0.12:
+                xi = xi.copy(); xi[rng.randrange(n)] = xi[rng.randrange(n)]; mode = "dup?"
+            elif c < 0.16 and n > 3:
+                srt = True; xi = xi.copy(); i = rng.randrange(n - 1); xi[i], xi[i + 1] = xi[i + 1], xi[i]; mode = "unsorted"
+            elif c < 0.24:
+                be = rng.random() < 0.6
+                span = float(x[-1] - x[0])
+                xn = xn.copy(); xn[rng.randrange(k)] = rng.choice([x[0] - span * rng.uniform(1e-9, 0.3), x[-1] + span * rng.uniform(1e-9, 0.3)])
+                mode = "outside" if be else "extrapolate"
+            elif c < 0.27:
+                yi = yi[:-1]; mode = "shape"
+            case = {"part": "lagrange", "n": n, "w": w, "tail": list(tail), "k": k, "flavour": flavour, "sorted_flag": srt,
+                    "bounds_error": be, "mode": mode, "x": [fl(v) for v in xi], "xn": [fl(v) for v in xn],
+                    "y": [fl(v) for v in np.asarray(yi).ravel()]}
+            ctx.case(case, nontrivial=(mode in ("ok", "extrapolate")))
+            ctx.count(f"lagrange:{mode}")
+            ctx.count(f"lagrange:ydim={1 + len(tail)}")
+            ctx.count(f"lagrange:x={flavour}")
+            for v in xn:   # exact ties between the two nearest samples exercise the first-minimum rule of argmin
+                dd = np.sort(np.abs(x - v))
+                if len(dd) > 1 and dd[0] == dd[1]:
+                    ctx.count("lagrange:xnew-equidistant-from-two-samples")
+                elif dd[0] == 0:
+                    ctx.count("lagrange:xnew-is-a-sample")
+            # ---- implementation
+            try:
+                r = call_interp("lagrange", xi, yi, xn, window=w, bounds_error=be, assume_sorted=srt)
+                impl = ("ok", np.asarray(r, dtype=float))
+            except ValueError as e:
+                impl = ("err", classify_error(e))
+            except Exception as e:  # noqa
+                impl = ("err", f"ERR:{type(e).__name__}:{str(e)[:80]}")
+            # ---- model
+            dim = int(np.prod(tail)) if tail else 1
+            rows = np.asarray(yi, dtype=float).reshape(len(yi), dim)
+            s = float(np.std(xi)) if len(xi) else 1.0
+            line = (f"c20 lagrange {w} {int(be)} {int(srt)} {rs(frac(s))} {dim} {rl(frac(v) for v in xi)} "
+                    f"{rrows([frac(v) for v in row] for row in rows)} {rl(frac(v) for v in xn)}")
+            m = drv.ask1(line)
+            if m.startswith("err "):
+                if impl != ("err", m[4:]):
+                    if impl[0] == "err" and impl[1].startswith("ERR:"):
+                        V(ctx, f"lagrange:raises:{impl[1].split(':')[1]}", f"lagrange raised {impl[1]} (model: {m})", case)
+                    ctx.disagree("lagrange error branch", case, m, list(map(str, impl)))
+                continue
+            if impl[0] != "ok":
+                if impl[1].startswith("ERR:") or len(tail) >= 2:
+                    V(ctx, "lagrange:ndim>=3-raises" if len(tail) >= 2 else f"lagrange:raises:{impl[1][:40]}",
+                                f"lagrange on y of shape {np.asarray(yi).shape} raised: {impl[1]}", case)
+                else:
+                    ctx.disagree("lagrange error branch", case, m[:80], list(impl))
+                continue
+            mv = prows(m[3:])
+            r = impl[1]
+            if r.shape != (len(xn),) + tuple(tail):
+                V(ctx, "lagrange:shape", f"result shape {r.shape} for y tail {tail} and {len(xn)} abscissae", case)
+                continue
+            r2 = r.reshape(len(xn), dim)
+            # condition-scaled float bound: the weights come from the code itself (y = identity)
+            order = np.argsort(xi) if not srt else np.arange(len(xi))
+            W = call_interp("lagrange", xi, np.eye(len(xi)), xn, window=w, bounds_error=be, assume_sorted=srt)
+            cond = np.abs(W) @ np.abs(rows)          # (k, dim)
+            xs_sorted = np.asarray(xi)[order]
+            amp = 1.0 + float(np.max(np.abs(xs_sorted - xs_sorted.mean())) / np.min(np.diff(xs_sorted)))
+            bad = None
+            for a in range(len(xn)):
+                for cdx in range(dim):
+                    tol = 1e-14 * w * amp * float(cond[a, cdx]) + 1e-300
+                    if abs(frac(r2[a, cdx]) - mv[a][cdx]) > frac(tol):
+                        bad = (a, cdx, float(r2[a, cdx]), float(mv[a][cdx]), tol)
+            if bad:
+                ctx.disagree("lagrange value", {**case, "at": bad[:2]}, bad[3], bad[2])
+            if mode in ("ok", "extrapolate"):
+                interp_oracle(ctx, "lagrange", case, x, y, xn, polys, tail, w, {"window": w, "bounds_error": be})
 
 
 def interp_oracle(ctx: Ctx, kind, case, x, y, xn, polys, tail, w, kw):
@@ -590,41 +623,42 @@ def derivative_part(ctx: Ctx):
     rng = ctx.rng
     for ci in range(ctx.budget(10, 200)):
         for kind in KINDS:
-            n = rng.randint(6, 30)
-            x, flavour = gen_abscissae(rng, n)
-            if kind == "barycentric_interpolator":   # full-degree polynomial: keep the node set well conditioned
-                n = rng.randint(6, 9)
-                x, flavour = rng.uniform(-50, 50) + 10 ** rng.uniform(-1, 1) * np.arange(n), "uniform"
-            tail = rng.choice([(), (2,)])
-            y, _ = gen_y(rng, x, tail, 3)
-            dx = float(np.min(np.diff(x))) * rng.choice([0.5, 0.25, 1.0])
-            xn = np.array([rng.uniform(x[0] + dx, x[-1] - dx) for _ in range(rng.randint(1, 5))])
-            kw = {"window": rng.randint(3, min(8, n))} if kind == "lagrange" else {}
-            case = {"part": "derivative", "kind": kind, "n": n, "tail": list(tail), "dx": fl(dx), "x": [fl(v) for v in x],
-                    "xn": [fl(v) for v in xn], "y": [fl(v) for v in np.asarray(y).ravel()]}
-            ctx.case(case)
-            ctx.count("derivative:" + kind)
-            try:
-                with warnings.catch_warnings():
-                    warnings.simplefilter("ignore")
-                    yn, yd = ip.interpolate_with_derivative(x, y, xn, kind=kind, dx=dx, **kw)
-                    ref = ip.interpolate(x, y, xn, kind=kind, **kw)
-                    hi = ip.interpolate(x, y, xn + dx, kind=kind, **kw)
-                    lo = ip.interpolate(x, y, xn - dx, kind=kind, **kw)
-                    a, b = rng.uniform(-3, 3), rng.uniform(-3, 3)
-                    line = (a + b * (x - x[0])).reshape((n,) + (1,) * len(tail)) * np.ones((n,) + tuple(tail))
-                    _, ld = ip.interpolate_with_derivative(x, line, xn, kind=kind, dx=dx, **kw)
-            except Exception as e:  # noqa
-                V(ctx, f"interp:derivative:raises:{type(e).__name__}", f"interpolate_with_derivative(kind={kind!r}) raised {type(e).__name__}: {str(e)[:100]}", case)
-                continue
-            scale = float(np.max(np.abs(y))) + 1e-300
-            amp = 1.0 + float(np.max(np.abs(x)) / np.min(np.diff(x)))
-            if not np.all(np.abs(np.asarray(yn) - ref) <= 1e-12 * scale):
-                V(ctx, f"interp:derivative:values:{kind}", "interpolate_with_derivative returns other values than interpolate", case)
-            if not np.all(np.abs(np.asarray(yd) - (hi - lo) / (2 * dx)) <= 1e-9 * amp * scale / dx):
-                V(ctx, f"interp:derivative:definition:{kind}", "derivative is not the central difference of the interpolant over x_new +- dx", case)
-            if not np.all(np.abs(np.asarray(ld) - b) <= 1e-9 * amp * (abs(a) + abs(b) * float(x[-1] - x[0]) + 1) / dx):
-                V(ctx, f"interp:derivative:line:{kind}", f"derivative of data on a line with slope {b!r} is {np.asarray(ld).ravel()[:3]}", case)
+            with guard(ctx, "derivative"):
+                n = rng.randint(6, 30)
+                x, flavour = gen_abscissae(rng, n)
+                if kind == "barycentric_interpolator":   # full-degree polynomial: keep the node set well conditioned
+                    n = rng.randint(6, 9)
+                    x, flavour = rng.uniform(-50, 50) + 10 ** rng.uniform(-1, 1) * np.arange(n), "uniform"
+                tail = rng.choice([(), (2,)])
+                y, _ = gen_y(rng, x, tail, 3)
+                dx = float(np.min(np.diff(x))) * rng.choice([0.5, 0.25, 1.0])
+                xn = np.array([rng.uniform(x[0] + dx, x[-1] - dx) for _ in range(rng.randint(1, 5))])
+                kw = {"window": rng.randint(3, min(8, n))} if kind == "lagrange" else {}
+                case = {"part": "derivative", "kind": kind, "n": n, "tail": list(tail), "dx": fl(dx), "x": [fl(v) for v in x],
+                        "xn": [fl(v) for v in xn], "y": [fl(v) for v in np.asarray(y).ravel()]}
+                ctx.case(case)
+                ctx.count("derivative:" + kind)
+                try:
+                    with warnings.catch_warnings():
+                        warnings.simplefilter("ignore")
+                        yn, yd = ip.interpolate_with_derivative(x, y, xn, kind=kind, dx=dx, **kw)
+                        ref = ip.interpolate(x, y, xn, kind=kind, **kw)
+                        hi = ip.interpolate(x, y, xn + dx, kind=kind, **kw)
+                        lo = ip.interpolate(x, y, xn - dx, kind=kind, **kw)
+                        a, b = rng.uniform(-3, 3), rng.uniform(-3, 3)
+                        line = (a + b * (x - x[0])).reshape((n,) + (1,) * len(tail)) * np.ones((n,) + tuple(tail))
+                        _, ld = ip.interpolate_with_derivative(x, line, xn, kind=kind, dx=dx, **kw)
+                except Exception as e:  # noqa
+                    V(ctx, f"interp:derivative:raises:{type(e).__name__}", f"interpolate_with_derivative(kind={kind!r}) raised {type(e).__name__}: {str(e)[:100]}", case)
+                    continue
+                scale = float(np.max(np.abs(y))) + 1e-300
+                amp = 1.0 + float(np.max(np.abs(x)) / np.min(np.diff(x)))
+                if not np.all(np.abs(np.asarray(yn) - ref) <= 1e-12 * scale):
+                    V(ctx, f"interp:derivative:values:{kind}", "interpolate_with_derivative returns other values than interpolate", case)
+                if not np.all(np.abs(np.asarray(yd) - (hi - lo) / (2 * dx)) <= 1e-9 * amp * scale / dx):
+                    V(ctx, f"interp:derivative:definition:{kind}", "derivative is not the central difference of the interpolant over x_new +- dx", case)
+                if not np.all(np.abs(np.asarray(ld) - b) <= 1e-9 * amp * (abs(a) + abs(b) * float(x[-1] - x[0]) + 1) / dx):
+                    V(ctx, f"interp:derivative:line:{kind}", f"derivative of data on a line with slope {b!r} is {np.asarray(ld).ravel()[:3]}", case)
 
 
 def scipy_part(ctx: Ctx, drv):
@@ -633,57 +667,58 @@ def scipy_part(ctx: Ctx, drv):
     ncases = ctx.budget(60, 1200)
     for ci in range(ncases):
         for kind in KINDS[1:]:
-            n = rng.randint(4, 60) if kind != "barycentric_interpolator" else rng.randint(3, 14)
-            x, flavour = gen_abscissae(rng, n)
-            tail = rng.choice([(), (), (2,), (3,), (2, 2)])
-            y, _ = gen_y(rng, x, tail, 3)
-            k = rng.randint(1, 6)
-            xn = gen_xnew(rng, x, flavour, k)
-            case = {"part": kind, "n": n, "tail": list(tail), "k": k, "flavour": flavour,
-                    "x": [fl(v) for v in x], "xn": [fl(v) for v in xn], "y": [fl(v) for v in np.asarray(y).ravel()]}
-            ctx.case(case)
-            ctx.count(f"{kind}:ydim={1 + len(tail)}")
-            interp_oracle(ctx, kind, case, x, y, xn, None, tail, 4, {})
-            dim = int(np.prod(tail)) if tail else 1
-            rows = np.asarray(y, dtype=float).reshape(n, dim)
-            if kind == "linear":
-                perm = np.array(rng.sample(range(n), n))
-                line = (f"c20 linear {dim} {rl(frac(v) for v in x[perm])} "
-                        f"{rrows([frac(v) for v in row] for row in rows[perm])} {rl(frac(v) for v in xn)}")
-                m = drv.ask1(line)
-                try:
-                    r = np.asarray(call_interp(kind, x[perm], y[perm], xn), dtype=float).reshape(len(xn), dim)
-                except Exception as e:  # noqa
-                    ctx.disagree("linear raised", case, m[:60], str(e)[:80])
-                    continue
-                if not m.startswith("ok "):
-                    ctx.disagree("linear error branch", case, m, "value")
-                    continue
-                mv = prows(m[3:])
-                ymax = float(np.max(np.abs(y))) + 1e-300
-                amp = 1.0 + float(np.max(np.abs(x)) / np.min(np.diff(x)))
-                for a in range(len(xn)):
-                    for cdx in range(dim):
-                        if abs(frac(r[a, cdx]) - mv[a][cdx]) > frac(1e-14 * amp * ymax):
-                            ctx.disagree("linear value", {**case, "at": [a, cdx]}, float(mv[a][cdx]), float(r[a, cdx]))
-            if kind == "barycentric_interpolator" and n <= 10:
-                # the full-degree interpolating polynomial is the Lagrange interpolant with window = n
-                s = float(np.std(x))
-                line = (f"c20 lagrange {n} 1 1 {rs(frac(s))} {dim} {rl(frac(v) for v in x)} "
-                        f"{rrows([frac(v) for v in row] for row in rows)} {rl(frac(v) for v in xn)}")
-                m = drv.ask1(line) if n >= 3 else "skip"
-                if m.startswith("ok "):
+            with guard(ctx, "scipy"):
+                n = rng.randint(4, 60) if kind != "barycentric_interpolator" else rng.randint(3, 14)
+                x, flavour = gen_abscissae(rng, n)
+                tail = rng.choice([(), (), (2,), (3,), (2, 2)])
+                y, _ = gen_y(rng, x, tail, 3)
+                k = rng.randint(1, 6)
+                xn = gen_xnew(rng, x, flavour, k)
+                case = {"part": kind, "n": n, "tail": list(tail), "k": k, "flavour": flavour,
+                        "x": [fl(v) for v in x], "xn": [fl(v) for v in xn], "y": [fl(v) for v in np.asarray(y).ravel()]}
+                ctx.case(case)
+                ctx.count(f"{kind}:ydim={1 + len(tail)}")
+                interp_oracle(ctx, kind, case, x, y, xn, None, tail, 4, {})
+                dim = int(np.prod(tail)) if tail else 1
+                rows = np.asarray(y, dtype=float).reshape(n, dim)
+                if kind == "linear":
+                    perm = np.array(rng.sample(range(n), n))
+                    line = (f"c20 linear {dim} {rl(frac(v) for v in x[perm])} "
+                            f"{rrows([frac(v) for v in row] for row in rows[perm])} {rl(frac(v) for v in xn)}")
+                    m = drv.ask1(line)
+                    try:
+                        r = np.asarray(call_interp(kind, x[perm], y[perm], xn), dtype=float).reshape(len(xn), dim)
+                    except Exception as e:  # noqa
+                        ctx.disagree("linear raised", case, m[:60], str(e)[:80])
+                        continue
+                    if not m.startswith("ok "):
+                        ctx.disagree("linear error branch", case, m, "value")
+                        continue
                     mv = prows(m[3:])
-                    r = np.asarray(call_interp(kind, x, y, xn), dtype=float).reshape(len(xn), dim)
-                    W = np.asarray(call_interp(kind, x, np.eye(n), xn), dtype=float)
-                    cond = np.abs(W) @ np.abs(rows)
-                    amp = 1.0 + float(np.max(np.abs(x - x.mean())) / np.min(np.diff(x)))
+                    ymax = float(np.max(np.abs(y))) + 1e-300
+                    amp = 1.0 + float(np.max(np.abs(x)) / np.min(np.diff(x)))
                     for a in range(len(xn)):
                         for cdx in range(dim):
-                            if abs(frac(r[a, cdx]) - mv[a][cdx]) > frac(1e-13 * n * amp * float(cond[a, cdx]) + 1e-300):
-                                ctx.disagree("barycentric_interpolator vs full-window Lagrange model", {**case, "at": [a, cdx]},
-                                             float(mv[a][cdx]), float(r[a, cdx]))
-                    ctx.count("barycentric-vs-lagrange-model")
+                            if abs(frac(r[a, cdx]) - mv[a][cdx]) > frac(1e-14 * amp * ymax):
+                                ctx.disagree("linear value", {**case, "at": [a, cdx]}, float(mv[a][cdx]), float(r[a, cdx]))
+                if kind == "barycentric_interpolator" and n <= 10:
+                    # the full-degree interpolating polynomial is the Lagrange interpolant with window = n
+                    s = float(np.std(x))
+                    line = (f"c20 lagrange {n} 1 1 {rs(frac(s))} {dim} {rl(frac(v) for v in x)} "
+                            f"{rrows([frac(v) for v in row] for row in rows)} {rl(frac(v) for v in xn)}")
+                    m = drv.ask1(line) if n >= 3 else "skip"
+                    if m.startswith("ok "):
+                        mv = prows(m[3:])
+                        r = np.asarray(call_interp(kind, x, y, xn), dtype=float).reshape(len(xn), dim)
+                        W = np.asarray(call_interp(kind, x, np.eye(n), xn), dtype=float)
+                        cond = np.abs(W) @ np.abs(rows)
+                        amp = 1.0 + float(np.max(np.abs(x - x.mean())) / np.min(np.diff(x)))
+                        for a in range(len(xn)):
+                            for cdx in range(dim):
+                                if abs(frac(r[a, cdx]) - mv[a][cdx]) > frac(1e-13 * n * amp * float(cond[a, cdx]) + 1e-300):
+                                    ctx.disagree("barycentric_interpolator vs full-window Lagrange model", {**case, "at": [a, cdx]},
+                                                 float(mv[a][cdx]), float(r[a, cdx]))
+                        ctx.count("barycentric-vs-lagrange-model")
 
 
 # =============================================================================================
@@ -705,68 +740,126 @@ def gen_geometry(rng):
         az = [2 * math.pi * i / (n - 1) for i in range(n - 1)] + [0.0]
         el = [math.radians(rng.choice([15.0, 30.0, 45.0]))] * (n - 1) + [math.pi / 2]
         fl_ = "ring"
-    return np.array(az), np.array(el), fl_
+    az = np.array(az)
+    # an azimuth is an angle: both usual conventions, and unwrapped values, are legitimate inputs
+    conv = rng.choice(["[0,2pi)", "[0,2pi)", "[-pi,pi)", "unwrapped"])
+    if conv == "[-pi,pi)":
+        az = (az + math.pi) % (2 * math.pi) - math.pi
+    elif conv == "unwrapped":
+        az = az + 2 * math.pi * np.array([rng.choice([-1, 0, 0, 1, 2]) for _ in range(n)])
+    return az, np.array(el), fl_ + "/" + conv
+
+
+DOP_NAMES = ["gdop", "pdop", "tdop", "hdop", "vdop"]
+
+
+def run_dops(az, el):
+    """compute_dops as a total function of its outcome:
+    ("ok", [5 finite positive floats]) | ("none", None) | ("raises", text) | ("invalid", text)"""
+    from midgard.gnss.compute_dops import compute_dops
+
+    try:
+        with warnings.catch_warnings():
+            warnings.simplefilter("ignore")
+            d = compute_dops(az, el)
+    except Exception as e:  # noqa
+        return "raises", f"{type(e).__name__}: {str(e)[:120]}"
+    try:
+        d = tuple(d)
+    except Exception:  # noqa
+        return "invalid", f"returned {d!r:.120}"
+    if len(d) != 5:
+        return "invalid", f"returned {len(d)} values: {d!r:.120}"
+    if all(u is None for u in d):
+        return "none", None
+    try:
+        vals = [float(np.asarray(u, dtype=float).reshape(())) for u in d]
+    except Exception:  # noqa
+        return "invalid", f"returned {d!r:.160}"
+    if not all(math.isfinite(u) and u > 0 for u in vals):
+        return "invalid", f"returned {vals}"
+    return "ok", vals
+
+
+def azimuth_rotations(rng, az):
+    """the same sky turned by one angle, written in every way a caller may write it"""
+    th = rng.uniform(0.05, 2 * math.pi - 0.05)
+    two_pi = 2 * math.pi
+    return th, [
+        ("az+theta (not re-wrapped)", az + th),
+        ("az-theta (not re-wrapped)", az - th),
+        ("az+theta wrapped to [-pi,pi)", (az + th + math.pi) % two_pi - math.pi),
+        ("az-theta wrapped to [-pi,pi)", (az - th + math.pi) % two_pi - math.pi),
+        ("az+theta wrapped to [0,2pi)", (az + th) % two_pi),
+        ("az-theta wrapped to [0,2pi)", (az - th) % two_pi),
+        ("az+2pi (whole turn)", az + two_pi),
+        ("az-2pi (whole turn)", az - two_pi),
+    ]
 
 
 def dops_part(ctx: Ctx, drv):
-    from midgard.gnss.compute_dops import compute_dops
-
     rng = ctx.rng
     ncases = ctx.budget(400, 10000)
-    names = ["gdop", "pdop", "tdop", "hdop", "vdop"]
+    names = DOP_NAMES
     for ci in range(ncases):
-        az, el, flv = gen_geometry(rng)
-        n = len(az)
-        case = {"part": "dops", "n": n, "flavour": flv, "az": [fl(v) for v in az], "el": [fl(v) for v in el]}
-        ctx.case(case)
-        ctx.count(f"dops:{flv}")
-        ctx.count("dops:n<=6" if n <= 6 else "dops:n<=20" if n <= 20 else "dops:n<=40")
-        with warnings.catch_warnings():
-            warnings.simplefilter("ignore")
-            try:
-                d = compute_dops(az, el)
-            except Exception as e:  # noqa
-                V(ctx, f"dops:raises:{type(e).__name__}", f"compute_dops raised {e}", case)
+        with guard(ctx, "dops"):
+            az, el, flv = gen_geometry(rng)
+            n = len(az)
+            case = {"part": "dops", "n": n, "flavour": flv, "az": [fl(v) for v in az], "el": [fl(v) for v in el]}
+            ctx.case(case)
+            ctx.count(f"dops:{flv}")
+            ctx.count("dops:n<=6" if n <= 6 else "dops:n<=20" if n <= 20 else "dops:n<=40")
+            H = np.stack((-np.cos(el) * np.cos(az), -np.cos(el) * np.sin(az), -np.sin(el), np.ones(n)), axis=1)
+            cond = float(np.linalg.cond(H.T @ H))
+            sats = [[frac(np.cos(e)), frac(np.sin(e)), frac(np.cos(a)), frac(np.sin(a))] for a, e in zip(az, el)]
+            m = drv.ask1("c20 dops " + rrows(sats))
+            st, d = run_dops(az, el)
+            well = cond < 1e10 and m != "singular"
+            if st in ("raises", "invalid"):
+                if well:
+                    V(ctx, f"dops:{st}", f"compute_dops {d} for {n} satellites with cond(HtH) = {cond:.3g}", case)
+                    ctx.disagree("compute_dops value", case, m[:80], [st, d])
+                else:
+                    ctx.count("dops:ill-conditioned(" + st + ")")
                 continue
-        H = np.stack((-np.cos(el) * np.cos(az), -np.cos(el) * np.sin(az), -np.sin(el), np.ones(n)), axis=1)
-        cond = float(np.linalg.cond(H.T @ H))
-        sats = [[frac(np.cos(e)), frac(np.sin(e)), frac(np.cos(a)), frac(np.sin(a))] for a, e in zip(az, el)]
-        m = drv.ask1("c20 dops " + rrows(sats))
-        if d[0] is None or m == "singular":
-            ctx.count("dops:singular")
-            if cond < 1e12 and (d[0] is None) != (m == "singular"):
-                ctx.disagree("compute_dops singularity", case, m, str(d))
-            continue
-        if cond > 1e10:
-            ctx.count("dops:ill-conditioned(skipped)")
-            continue
-        mv = [Fraction(t) for t in m.split()[1:]]
-        if not all(math.isfinite(float(u)) for u in d):
-            V(ctx, "dops:not-finite", f"compute_dops returned {[float(u) for u in d]} for a geometry with cond(HtH) = {cond:.3g}", case)
-            ctx.disagree("compute_dops value", case, [float(q) for q in mv], [float(u) for u in d])
-            continue
-        rel = 64 * EPS * cond + 1e-13
-        for nm, dv, q in zip(names, d, mv):
-            if abs(frac(float(dv)) ** 2 - q) > frac(rel) * q:
-                ctx.disagree(f"compute_dops {nm}", case, float(q), float(dv) ** 2)
-        # ---- oracle
-        g, p, t, h, v = (float(u) for u in d)
-        if abs(g * g - (p * p + t * t)) > 1e-12 * g * g:
-            V(ctx, "dops:gdop2=pdop2+tdop2", f"GDOP^2 - PDOP^2 - TDOP^2 = {g * g - p * p - t * t:.3e}", case)
-        if abs(p * p - (h * h + v * v)) > 1e-12 * p * p:
-            V(ctx, "dops:pdop2=hdop2+vdop2", f"PDOP^2 - HDOP^2 - VDOP^2 = {p * p - h * h - v * v:.3e}", case)
-        tol = 256 * EPS * cond + 1e-12
-        th = rng.uniform(-2 * math.pi, 2 * math.pi)
-        with warnings.catch_warnings():
-            warnings.simplefilter("ignore")
-            dr = compute_dops(az + th, el)
+            if st == "none" or m == "singular":
+                ctx.count("dops:singular")
+                if cond < 1e12 and (st == "none") != (m == "singular"):
+                    if st == "none":
+                        V(ctx, "dops:none-for-regular-geometry", f"compute_dops returned None x 5 for {n} satellites with cond(HtH) = {cond:.3g}", case)
+                    ctx.disagree("compute_dops singularity", case, m[:80], [st, d])
+                continue
+            if not well:
+                ctx.count("dops:ill-conditioned(skipped)")
+                continue
+            mv = [Fraction(t) for t in m.split()[1:]]
+            rel = 64 * EPS * cond + 1e-13
+            for nm, dv, q in zip(names, d, mv):
+                if abs(frac(dv) ** 2 - q) > frac(rel) * q:
+                    ctx.disagree(f"compute_dops {nm}", case, float(q), dv ** 2)
+            # ---- oracle
+            g, p, t, h, v = d
+            if abs(g * g - (p * p + t * t)) > 1e-12 * g * g:
+                V(ctx, "dops:gdop2=pdop2+tdop2", f"GDOP^2 - PDOP^2 - TDOP^2 = {g * g - p * p - t * t:.3e}", case)
+            if abs(p * p - (h * h + v * v)) > 1e-12 * p * p:
+                V(ctx, "dops:pdop2=hdop2+vdop2", f"PDOP^2 - HDOP^2 - VDOP^2 = {p * p - h * h - v * v:.3e}", case)
+            tol = 256 * EPS * cond + 1e-12
+            th, variants = azimuth_rotations(rng, az)
+            for vname, az2 in variants:
+                st2, d2 = run_dops(az2, el)
+                ctx.count("dops:rotation-variants")
+                if st2 != "ok":
+                    V(ctx, f"dops:azimuth-rotation:{vname}", f"after {vname}, theta = {th!r}: compute_dops {st2} {d2 if d2 else ''} "
+                      f"(before: {d})", {**case, "theta": fl(th), "variant": vname})
+                    continue
+                worst = max(abs(u1 - u0) / u0 for u0, u1 in zip(d, d2))
+                if worst > tol:
+                    V(ctx, f"dops:azimuth-rotation:{vname}", f"DOPs change from {d} to {d2} after {vname}, theta = {th!r}",
+                      {**case, "theta": fl(th), "variant": vname})
             perm = np.array(rng.sample(range(n), n))
-            dp = compute_dops(az[perm], el[perm])
-        for nm, u0, u1, u2 in zip(names, d, dr, dp):
-            if u1 is None or abs(float(u1) - float(u0)) > tol * float(u0):
-                V(ctx, f"dops:azimuth-rotation:{nm}", f"{nm} changes from {float(u0)!r} to {u1!r} when all azimuths turn by {th!r}", {**case, "theta": fl(th)})
-            if u2 is None or abs(float(u2) - float(u0)) > tol * float(u0):
-                V(ctx, f"dops:permutation:{nm}", f"{nm} changes from {float(u0)!r} to {u2!r} when the satellites are reordered", {**case, "perm": perm.tolist()})
+            st3, d3 = run_dops(az[perm], el[perm])
+            if st3 != "ok" or max(abs(u1 - u0) / u0 for u0, u1 in zip(d, d3)) > tol:
+                V(ctx, "dops:permutation", f"DOPs change from {d} to {st3} {d3} when the satellites are reordered", {**case, "perm": perm.tolist()})
 
 
 # =============================================================================================
@@ -781,88 +874,95 @@ def plate_part(ctx: Ctx, drv, info):
     reps = ctx.budget(6, 100)
     R = 6371e3
     for (mname, plate, w, c, k) in info["poles"]:
-        try:
-            pm = PlateMotion(plate=plate, model=mname)
-        except Exception as e:  # noqa
-            V(ctx, f"plate:init:{mname}/{plate}", f"PlateMotion({plate!r}, {mname!r}) raised {e}", {"model": mname, "plate": plate})
-            continue
-        pole = np.array([pm.pole.wx, pm.pole.wy, pm.pole.wz], dtype=float)
-        for r in range(reps):
-            cch = rng.random()
-            if cch < 0.6:
-                lat, lon = math.asin(rng.uniform(-1, 1)), rng.uniform(-math.pi, math.pi)
-                rad = R + rng.uniform(-500, 9000)
-                pos = [rad * math.cos(lat) * math.cos(lon), rad * math.cos(lat) * math.sin(lon), rad * math.sin(lat)]
-            elif cch < 0.8:
-                pos = [rng.uniform(-1, 1) * 10 ** rng.uniform(0, 8) for _ in range(3)]
-            elif cch < 0.9:
-                pos = [0.0, 0.0, rng.choice([-R, R])]
-            else:
-                pos = [float(rng.randint(-7000000, 7000000)) for _ in range(3)]
-            as_list = rng.random() < 0.3
-            case = {"part": "plate", "model": mname, "plate": plate, "pos": [fl(v) for v in pos], "list": as_list}
-            ctx.case(case)
-            ctx.count(f"plate:{mname}")
+        with guard(ctx, "plate"):
             try:
-                v = np.asarray(pm.get_velocity(pos if as_list else np.array(pos)), dtype=float)
+                pm = PlateMotion(plate=plate, model=mname)
             except Exception as e:  # noqa
-                V(ctx, f"plate:raises:{type(e).__name__}", f"get_velocity raised {e}", case)
+                V(ctx, f"plate:init:{mname}/{plate}", f"PlateMotion({plate!r}, {mname!r}) raised {e}", {"model": mname, "plate": plate})
                 continue
-            m = drv.ask1(f"c20 plate {mname} {plate} {rs(PI)} {rl(frac(u) for u in pos).replace(',', ' ')}")
-            if not m.startswith("ok "):
-                ctx.disagree("plate table lookup", case, m, v.tolist())
-                continue
-            mv = [Fraction(t) for t in m.split()[1:]]
-            nr = math.sqrt(sum(u * u for u in pos))
-            nw = float(np.linalg.norm(pole))
-            for i in range(3):
-                if abs(frac(v[i]) - mv[i]) > frac(1e-14 * nr * nw + 1e-300):
-                    ctx.disagree("get_velocity", {**case, "i": i}, float(mv[i]), float(v[i]))
-            # ---- oracle: perpendicular to the position and to the pole
-            nv = float(np.linalg.norm(v))
-            if abs(float(np.dot(v, pos))) > 1e-12 * nv * nr + 1e-300:
-                V(ctx, "plate:v.r=0", f"v.r = {float(np.dot(v, pos))!r} for |v||r| = {nv * nr!r}", case)
-            # ... and it is the right-handed rotation velocity: |v|^2 = |w|^2|r|^2 - (w.r)^2, (w x r).v = |v|^2
-            lag = nw * nw * nr * nr - float(np.dot(pole, pos)) ** 2
-            if abs(nv * nv - lag) > 1e-9 * (nw * nr) ** 2 + 1e-300:
-                V(ctx, "plate:speed", f"|v|^2 = {nv * nv!r} but |w|^2|r|^2 - (w.r)^2 = {lag!r}", case)
-            if float(np.dot(np.cross(pole, np.array(pos, dtype=float)), v)) < -1e-12 * (nw * nr) ** 2:
-                V(ctx, "plate:orientation", "v points against w x r (left-handed rotation about the pole)", case)
-            if abs(float(np.dot(v, pole))) > 1e-12 * nv * nw + 1e-300:
-                V(ctx, "plate:v.w=0", f"v.w = {float(np.dot(v, pole))!r} for |v||w| = {nv * nw!r}", case)
-        # spherical <-> cartesian forms of the pole agree with each other (arctan2/cos: measured only)
-        try:
-            sph = pm.as_spherical()
-            car = pm.as_cartesian()
-            back = pm.to_cartesian(sph)
-            if not np.all(np.abs(back - car) <= 1e-9 * np.linalg.norm(car)):
-                V(ctx, f"plate:spherical-roundtrip:{mname}/{plate}", f"to_cartesian(as_spherical()) = {back} vs {car}", {"model": mname, "plate": plate})
-            stored = np.array([float(u) for u in w])
-            if not np.all(np.abs(car - stored) <= 1e-12 * np.linalg.norm(stored)):
-                V(ctx, f"plate:as_cartesian:{mname}/{plate}", f"as_cartesian() = {car} but the model stores {stored}", {"model": mname, "plate": plate})
-        except Exception as e:  # noqa
-            V(ctx, f"plate:spherical:raises:{type(e).__name__}", f"as_spherical/to_cartesian raised {e}", {"model": mname, "plate": plate})
+            pole = np.array([pm.pole.wx, pm.pole.wy, pm.pole.wz], dtype=float)
+            for r in range(reps):
+                with guard(ctx, "plate"):
+                    cch = rng.random()
+                    if cch < 0.6:
+                        lat, lon = math.asin(rng.uniform(-1, 1)), rng.uniform(-math.pi, math.pi)
+                        rad = R + rng.uniform(-500, 9000)
+                        pos = [rad * math.cos(lat) * math.cos(lon), rad * math.cos(lat) * math.sin(lon), rad * math.sin(lat)]
+                    elif cch < 0.8:
+                        pos = [rng.uniform(-1, 1) * 10 ** rng.uniform(0, 8) for _ in range(3)]
+                    elif cch < 0.9:
+                        pos = [0.0, 0.0, rng.choice([-R, R])]
+                    else:
+                        pos = [float(rng.randint(-7000000, 7000000)) for _ in range(3)]
+                    as_list = rng.random() < 0.3
+                    case = {"part": "plate", "model": mname, "plate": plate, "pos": [fl(v) for v in pos], "list": as_list}
+                    ctx.case(case)
+                    ctx.count(f"plate:{mname}")
+                    try:
+                        v = np.asarray(pm.get_velocity(pos if as_list else np.array(pos)), dtype=float)
+                    except Exception as e:  # noqa
+                        V(ctx, f"plate:raises:{type(e).__name__}", f"get_velocity raised {e}", case)
+                        continue
+                    m = drv.ask1(f"c20 plate {mname} {plate} {rs(PI)} {rl(frac(u) for u in pos).replace(',', ' ')}")
+                    if not m.startswith("ok "):
+                        ctx.disagree("plate table lookup", case, m, v.tolist())
+                        continue
+                    mv = [Fraction(t) for t in m.split()[1:]]
+                    nr = math.sqrt(sum(u * u for u in pos))
+                    nw = float(np.linalg.norm(pole))
+                    for i in range(3):
+                        if abs(frac(v[i]) - mv[i]) > frac(1e-14 * nr * nw + 1e-300):
+                            ctx.disagree("get_velocity", {**case, "i": i}, float(mv[i]), float(v[i]))
+                    # ---- oracle: perpendicular to the position and to the pole
+                    nv = float(np.linalg.norm(v))
+                    if abs(float(np.dot(v, pos))) > 1e-12 * nv * nr + 1e-300:
+                        V(ctx, "plate:v.r=0", f"v.r = {float(np.dot(v, pos))!r} for |v||r| = {nv * nr!r}", case)
+                    # ... and it is the right-handed rotation velocity: |v|^2 = |w|^2|r|^2 - (w.r)^2, (w x r).v = |v|^2
+                    lag = nw * nw * nr * nr - float(np.dot(pole, pos)) ** 2
+                    if abs(nv * nv - lag) > 1e-9 * (nw * nr) ** 2 + 1e-300:
+                        V(ctx, "plate:speed", f"|v|^2 = {nv * nv!r} but |w|^2|r|^2 - (w.r)^2 = {lag!r}", case)
+                    if float(np.dot(np.cross(pole, np.array(pos, dtype=float)), v)) < -1e-12 * (nw * nr) ** 2:
+                        V(ctx, "plate:orientation", "v points against w x r (left-handed rotation about the pole)", case)
+                    if abs(float(np.dot(v, pole))) > 1e-12 * nv * nw + 1e-300:
+                        V(ctx, "plate:v.w=0", f"v.w = {float(np.dot(v, pole))!r} for |v||w| = {nv * nw!r}", case)
+            # spherical <-> cartesian forms of the pole agree with each other (arctan2/cos: measured only)
+            try:
+                sph = pm.as_spherical()
+                car = pm.as_cartesian()
+                back = pm.to_cartesian(sph)
+                if not np.all(np.abs(back - car) <= 1e-9 * np.linalg.norm(car)):
+                    V(ctx, f"plate:spherical-roundtrip:{mname}/{plate}", f"to_cartesian(as_spherical()) = {back} vs {car}", {"model": mname, "plate": plate})
+                stored = np.array([float(u) for u in w])
+                if not np.all(np.abs(car - stored) <= 1e-12 * np.linalg.norm(stored)):
+                    V(ctx, f"plate:as_cartesian:{mname}/{plate}", f"as_cartesian() = {car} but the model stores {stored}", {"model": mname, "plate": plate})
+            except Exception as e:  # noqa
+                V(ctx, f"plate:spherical:raises:{type(e).__name__}", f"as_spherical/to_cartesian raised {e}", {"model": mname, "plate": plate})
 
     # the documentation table above nnr_morvel56 (lat, lon, rate): to_cartesian of a documented pole is the stored pole
     doc = info["doc"]
     if doc and "nnr_morvel56" in pmm._PLATE_MOTION_MODELS:
         model = pmm._PLATE_MOTION_MODELS["nnr_morvel56"]
-        anyp = PlateMotion(plate=next(iter(model.poles)), model="nnr_morvel56")
+        try:
+            anyp = PlateMotion(plate=next(iter(model.poles)), model="nnr_morvel56")
+        except Exception as e:  # noqa
+            V(ctx, "plate-doc:init", f"PlateMotion for nnr_morvel56 raised {e}", {"model": "nnr_morvel56"})
+            doc = []
         stored = {pl: np.array([p.wx, p.wy, p.wz], dtype=float) for pl, p in model.poles.items()}
         for full, ab, lat, lon, rate in doc:
-            want = np.asarray(anyp.to_cartesian(np.array([float(lat), float(lon), float(rate)])), dtype=float)
-            # the plate whose key starts like the documented name
-            cands = [pl for pl, p in model.poles.items() if p.description.lower().startswith(full.lower()[:4])]
-            if len(cands) != 1:
-                ctx.count("plate-doc:unmatched")
-                continue
-            pl = cands[0]
-            ctx.case({"part": "plate-doc", "plate": pl})
-            ctx.count("plate-doc")
-            if np.linalg.norm(stored[pl] - want) > 0.01 * np.linalg.norm(want):
-                V(ctx, f"plate-doc:nnr_morvel56/{pl}", f"{pl} ({full}): stored pole {stored[pl].tolist()} mas/yr, documented "
-                            f"lat/lon/rate {float(lat)}/{float(lon)}/{float(rate)} give {np.round(want, 5).tolist()}",
-                            {"model": "nnr_morvel56", "plate": pl, "doc": [str(lat), str(lon), str(rate)]})
+            with guard(ctx, "plate-doc"):
+                want = np.asarray(anyp.to_cartesian(np.array([float(lat), float(lon), float(rate)])), dtype=float)
+                # the plate whose key starts like the documented name
+                cands = [pl for pl, p in model.poles.items() if p.description.lower().startswith(full.lower()[:4])]
+                if len(cands) != 1:
+                    ctx.count("plate-doc:unmatched")
+                    continue
+                pl = cands[0]
+                ctx.case({"part": "plate-doc", "plate": pl})
+                ctx.count("plate-doc")
+                if np.linalg.norm(stored[pl] - want) > 0.01 * np.linalg.norm(want):
+                    V(ctx, f"plate-doc:nnr_morvel56/{pl}", f"{pl} ({full}): stored pole {stored[pl].tolist()} mas/yr, documented "
+                                f"lat/lon/rate {float(lat)}/{float(lon)}/{float(rate)} give {np.round(want, 5).tolist()}",
+                                {"model": "nnr_morvel56", "plate": pl, "doc": [str(lat), str(lon), str(rate)]})
 
 
 # =============================================================================================
@@ -875,73 +975,74 @@ def linreg_part(ctx: Ctx, drv):
     rng = ctx.rng
     ncases = ctx.budget(120, 2000)
     for ci in range(ncases):
-        n = rng.randint(3, 30)
-        x0, h = rng.uniform(-100, 100), 10 ** rng.uniform(-1, 2)
-        x = np.array(sorted({x0 + h * rng.uniform(0, n) for _ in range(n)}))
-        if len(x) < 3:
-            continue
-        n = len(x)
-        a, b = rng.uniform(-50, 50), rng.uniform(-5, 5)
-        noise = 10 ** rng.uniform(-3, 1)
-        y = a + b * x + np.array([rng.gauss(0, noise) for _ in range(n)])
-        nout = rng.choice([0, 0, 1, 2]) if n > 6 else 0
-        for i in rng.sample(range(n), nout):
-            y[i] += rng.choice([-1, 1]) * noise * rng.uniform(8, 40)
-        reject = rng.random() < 0.5
-        factor = rng.choice([1.0, 1.5, 2.0, 3.0])
-        it = rng.randint(1, 3)
-        as_list = rng.random() < 0.3
-        exact = rng.random() < 0.15 and not reject
-        if exact:
-            x = np.array([float(int(v)) for v in x]); x = np.unique(x)
+        with guard(ctx, "linreg"):
+            n = rng.randint(3, 30)
+            x0, h = rng.uniform(-100, 100), 10 ** rng.uniform(-1, 2)
+            x = np.array(sorted({x0 + h * rng.uniform(0, n) for _ in range(n)}))
             if len(x) < 3:
                 continue
-            a, b = float(rng.randint(-20, 20)), float(rng.randint(-9, 9)) / 4
-            y = a + b * x
-        case = {"part": "linreg", "n": len(x), "reject": reject, "factor": factor, "iter": it, "list": as_list, "exact": exact,
-                "x": [fl(v) for v in x], "y": [fl(v) for v in y]}
-        ctx.case(case)
-        ctx.count("linreg:reject" if reject else "linreg:plain")
-        kw = dict(reject_outlier=reject, outlier_limit_factor=factor, outlier_iteration=it) if reject else {}
-        m = drv.ask1(f"c20 linreg {int(reject)} {rs(frac(factor))} {it} {rl(frac(v) for v in x)} {rl(frac(v) for v in y)}")
-        try:
-            lr = LinearRegression(x.tolist() if as_list else x.copy(), y.tolist() if as_list else y.copy(), **kw)
-            ic, sl = float(lr.interception), float(lr.slope)
-            kept = np.asarray(lr.x, dtype=float)
-            res = np.asarray(lr.residuals, dtype=float)
-        except Exception as e:  # noqa
-            if reject and (m == "degenerate" or borderline(x, y, factor, it)):
-                ctx.count("linreg:rejection-left-fewer-than-2-samples")   # nothing to fit: outside the property
-            else:
-                V(ctx, f"linreg:raises:{type(e).__name__}", f"LinearRegression raised {e}", case)
-            continue
-        ys = float(np.max(np.abs(y))) + 1.0
-        xs_ = float(np.max(np.abs(x))) + 1.0
-        spread = float(np.ptp(x))
-        # ---- oracle (plain fit): list input is the same data; the normal equations; an exact line is recovered
-        if not reject:
-            lr2 = LinearRegression(x.copy(), y.copy())
-            if abs(float(lr2.slope) - sl) > 1e-9 * (ys / spread) or abs(float(lr2.interception) - ic) > 1e-9 * ys * xs_ / spread:
-                V(ctx, "linreg:list-input", f"LinearRegression(list, list) gives slope {sl!r}, arrays give {float(lr2.slope)!r}", case)
+            n = len(x)
+            a, b = rng.uniform(-50, 50), rng.uniform(-5, 5)
+            noise = 10 ** rng.uniform(-3, 1)
+            y = a + b * x + np.array([rng.gauss(0, noise) for _ in range(n)])
+            nout = rng.choice([0, 0, 1, 2]) if n > 6 else 0
+            for i in rng.sample(range(n), nout):
+                y[i] += rng.choice([-1, 1]) * noise * rng.uniform(8, 40)
+            reject = rng.random() < 0.5
+            factor = rng.choice([1.0, 1.5, 2.0, 3.0])
+            it = rng.randint(1, 3)
+            as_list = rng.random() < 0.3
+            exact = rng.random() < 0.15 and not reject
+            if exact:
+                x = np.array([float(int(v)) for v in x]); x = np.unique(x)
+                if len(x) < 3:
+                    continue
+                a, b = float(rng.randint(-20, 20)), float(rng.randint(-9, 9)) / 4
+                y = a + b * x
+            case = {"part": "linreg", "n": len(x), "reject": reject, "factor": factor, "iter": it, "list": as_list, "exact": exact,
+                    "x": [fl(v) for v in x], "y": [fl(v) for v in y]}
+            ctx.case(case)
+            ctx.count("linreg:reject" if reject else "linreg:plain")
+            kw = dict(reject_outlier=reject, outlier_limit_factor=factor, outlier_iteration=it) if reject else {}
+            m = drv.ask1(f"c20 linreg {int(reject)} {rs(frac(factor))} {it} {rl(frac(v) for v in x)} {rl(frac(v) for v in y)}")
+            try:
+                lr = LinearRegression(x.tolist() if as_list else x.copy(), y.tolist() if as_list else y.copy(), **kw)
+                ic, sl = float(lr.interception), float(lr.slope)
+                kept = np.asarray(lr.x, dtype=float)
+                res = np.asarray(lr.residuals, dtype=float)
+            except Exception as e:  # noqa
+                if reject and (m == "degenerate" or borderline(x, y, factor, it)):
+                    ctx.count("linreg:rejection-left-fewer-than-2-samples")   # nothing to fit: outside the property
+                else:
+                    V(ctx, f"linreg:raises:{type(e).__name__}", f"LinearRegression raised {e}", case)
                 continue
-            if abs(res.sum()) > 1e-9 * ys * len(x) or abs((res * x).sum()) > 1e-9 * ys * xs_ * len(x):
-                V(ctx, "linreg:normal-equations", f"residuals not orthogonal to [1, x]: {res.sum():.3e}, {(res * x).sum():.3e}", case)
-            if exact and (abs(sl - b) > 1e-9 * (abs(b) + 1) or abs(ic - a) > 1e-9 * (abs(a) + 1) * xs_):
-                V(ctx, "linreg:exact-line", f"data on the line {a}+{b}x fitted as {ic!r}+{sl!r}x", case)
-        if m == "degenerate":
-            ctx.count("linreg:degenerate")
-            continue
-        t = m.split()
-        mi, ms, mk = Fraction(t[1]), Fraction(t[2]), prl(t[3])
-        if reject and [frac(v) for v in kept] != mk:
-            ctx.count("linreg:kept-set-differs(borderline?)")
-            # a sample whose residual is within rounding of the limit may fall on either side: decide by margin
-            if not borderline(x, y, factor, it):
-                ctx.disagree("LinearRegression outlier rejection (kept samples)", case, [float(v) for v in mk], kept.tolist())
-            continue
-        cnd = (xs_ / max(spread, 1e-300)) ** 2
-        if abs(frac(sl) - ms) > frac(1e-11 * cnd * ys / max(spread, 1e-300)) or abs(frac(ic) - mi) > frac(1e-11 * cnd * ys * xs_ / max(spread, 1e-300)):
-            ctx.disagree("LinearRegression fit", case, [float(mi), float(ms)], [ic, sl])
+            ys = float(np.max(np.abs(y))) + 1.0
+            xs_ = float(np.max(np.abs(x))) + 1.0
+            spread = float(np.ptp(x))
+            # ---- oracle (plain fit): list input is the same data; the normal equations; an exact line is recovered
+            if not reject:
+                lr2 = LinearRegression(x.copy(), y.copy())
+                if abs(float(lr2.slope) - sl) > 1e-9 * (ys / spread) or abs(float(lr2.interception) - ic) > 1e-9 * ys * xs_ / spread:
+                    V(ctx, "linreg:list-input", f"LinearRegression(list, list) gives slope {sl!r}, arrays give {float(lr2.slope)!r}", case)
+                    continue
+                if abs(res.sum()) > 1e-9 * ys * len(x) or abs((res * x).sum()) > 1e-9 * ys * xs_ * len(x):
+                    V(ctx, "linreg:normal-equations", f"residuals not orthogonal to [1, x]: {res.sum():.3e}, {(res * x).sum():.3e}", case)
+                if exact and (abs(sl - b) > 1e-9 * (abs(b) + 1) or abs(ic - a) > 1e-9 * (abs(a) + 1) * xs_):
+                    V(ctx, "linreg:exact-line", f"data on the line {a}+{b}x fitted as {ic!r}+{sl!r}x", case)
+            if m == "degenerate":
+                ctx.count("linreg:degenerate")
+                continue
+            t = m.split()
+            mi, ms, mk = Fraction(t[1]), Fraction(t[2]), prl(t[3])
+            if reject and [frac(v) for v in kept] != mk:
+                ctx.count("linreg:kept-set-differs(borderline?)")
+                # a sample whose residual is within rounding of the limit may fall on either side: decide by margin
+                if not borderline(x, y, factor, it):
+                    ctx.disagree("LinearRegression outlier rejection (kept samples)", case, [float(v) for v in mk], kept.tolist())
+                continue
+            cnd = (xs_ / max(spread, 1e-300)) ** 2
+            if abs(frac(sl) - ms) > frac(1e-11 * cnd * ys / max(spread, 1e-300)) or abs(frac(ic) - mi) > frac(1e-11 * cnd * ys * xs_ / max(spread, 1e-300)):
+                ctx.disagree("LinearRegression fit", case, [float(mi), float(ms)], [ic, sl])
 
 
 def borderline(x, y, factor, it) -> bool:
@@ -1114,21 +1215,32 @@ def replay(payload):
                     for v in ctx.violations:
                         print("  oracle:", v.key, "|", v.what)
         elif part == "dops":
-            from midgard.gnss.compute_dops import compute_dops
             az = np.array([_hx(v) for v in c["az"]]); el = np.array([_hx(v) for v in c["el"]])
-            d0 = [float(u) for u in compute_dops(az, el)]
-            th = _hx(c["theta"]) if "theta" in c else 1.0
-            d1 = [float(u) for u in compute_dops(az + th, el)]
-            perm = np.array(c["perm"]) if "perm" in c else np.arange(len(az))[::-1]
-            d2 = [float(u) for u in compute_dops(az[perm], el[perm])]
-            print("dops", d0); print("rotated", d1); print("permuted", d2)
-            g, pd, t, h, v = d0
+            st, d0 = run_dops(az, el)
+            print("compute_dops:", st, d0)
             H = np.stack((-np.cos(el) * np.cos(az), -np.cos(el) * np.sin(az), -np.sin(el), np.ones(len(az))), axis=1)
-            tol = 256 * EPS * float(np.linalg.cond(H.T @ H)) + 1e-12
-            bad = (not all(math.isfinite(u) for u in d0) or abs(g * g - pd * pd - t * t) > 1e-12 * g * g
-                   or abs(pd * pd - h * h - v * v) > 1e-12 * pd * pd
-                   or any(not abs(u1 - u0) <= tol * u0 for u0, u1 in zip(d0, d1))
-                   or any(not abs(u2 - u0) <= tol * u0 for u0, u2 in zip(d0, d2)))
+            cond = float(np.linalg.cond(H.T @ H))
+            tol = 256 * EPS * cond + 1e-12
+            bad = st != "ok" and cond < 1e10
+            if st == "ok":
+                g, pd, t, h, v = d0
+                bad = abs(g * g - pd * pd - t * t) > 1e-12 * g * g or abs(pd * pd - h * h - v * v) > 1e-12 * pd * pd
+                import random as _r
+                th = _hx(c["theta"]) if "theta" in c else 1.0
+
+                class _fixed:
+                    def uniform(self, a, b):
+                        return th
+                for vname, az2 in azimuth_rotations(_fixed(), az)[1]:
+                    st2, d2 = run_dops(az2, el)
+                    ok2 = st2 == "ok" and max(abs(u1 - u0) / u0 for u0, u1 in zip(d0, d2)) <= tol
+                    print(f"  {vname}: {st2} {d2}" + ("" if ok2 else "   <-- differs"))
+                    bad = bad or not ok2
+                perm = np.array(c["perm"]) if "perm" in c else np.arange(len(az))[::-1]
+                st3, d3 = run_dops(az[perm], el[perm])
+                ok3 = st3 == "ok" and max(abs(u1 - u0) / u0 for u0, u1 in zip(d0, d3)) <= tol
+                print(f"  reordered: {st3} {d3}" + ("" if ok3 else "   <-- differs"))
+                bad = bad or not ok3
         elif part == "plate":
             from midgard.math.plate_motion import PlateMotion
             pm = PlateMotion(plate=c["plate"], model=c["model"])
